@@ -701,7 +701,7 @@ def _first_diff(a, b):
 
 
 def shards(tier):
-    n = 120 if tier == "quick" else 2500
+    n = 250 if tier == "quick" else 2500
     return [{"kind": "hyp", "i": i, "n": n} for i in range(16)]
 
 
